@@ -242,3 +242,374 @@ def linform(repo: Repo, mod, fn_node, expr, depth=0):
     if p:
         return {p: 1}
     return None
+
+
+# ---- CFG helpers with a refined "may raise" notion (appended for C07/C15; usable by any rule) ----
+
+_LOG_METHODS = {"debug", "info", "warning", "warn", "error", "exception", "critical", "log"}
+_LOG_RECEIVERS = {"LOG", "logging", "logger", "log", "_LOG", "_logger", "LOGGER"}
+_BENIGN_BUILTINS = {"len", "isinstance", "issubclass", "bool", "tuple", "list", "dict", "set", "frozenset", "str",
+                    "repr", "id", "type", "callable", "print", "hasattr", "format"}
+
+
+def is_logging_call(c: ast.Call) -> bool:
+    """LOG.x(...) / logging.x(...) / self.logger.x(...) with x a logging method."""
+    p = (ap(c.func) or "").split(".")
+    return len(p) >= 2 and p[-1] in _LOG_METHODS and p[-2] in _LOG_RECEIVERS
+
+
+def is_benign_call(c: ast.Call) -> bool:
+    """Calls that rules about exceptional exits ignore (diagnostics and total builtins)."""
+    if is_logging_call(c):
+        return True
+    return isinstance(c.func, ast.Name) and c.func.id in _BENIGN_BUILTINS
+
+
+def cfg_node_expr(cfg, n):
+    """The AST evaluated at a CFG node (statement, or the head expression of if/loop/with)."""
+    if n.ast is None or n.kind in ("handler", "entry", "exit", "raise"):
+        return None
+    if n.kind == "stmt":
+        return None if isinstance(n.ast, FUNC_TYPES + (ast.ClassDef,)) else n.ast
+    if n.kind == "loop" and isinstance(n.ast, ast.While):
+        return n.ast.test
+    return cfg._head_expr(n.ast)
+
+
+def cfg_node_calls(cfg, n) -> List[ast.Call]:
+    e = cfg_node_expr(cfg, n)
+    return [] if e is None else [x for x in walk(e) if isinstance(x, ast.Call)]
+
+
+def cfg_node_fallible(cfg, n, benign: Callable[[ast.Call], bool] = is_benign_call) -> bool:
+    """The node can complete abruptly for a reason rules care about: raise/assert/await/yield or a
+    call that is not benign."""
+    e = cfg_node_expr(cfg, n)
+    if e is None:
+        return False
+    for x in walk(e):
+        if isinstance(x, (ast.Raise, ast.Assert, ast.Await, ast.Yield, ast.YieldFrom)):
+            return True
+        if isinstance(x, ast.Call) and not benign(x):
+            return True
+    return False
+
+
+def cfg_search(cfg, starts, target: Callable, avoid: Callable = lambda n: False,
+               follow_exc: Callable = lambda n: True, start_edges: str = "all"):
+    """Breadth-first witness path from the successors of `starts` to a node satisfying `target`,
+    never entering `avoid` nodes; exceptional edges of an intermediate node are followed only when
+    follow_exc(node).  start_edges: 'all' | 'normal' | 'exc' selects which edges leave the start nodes.
+    Returns the node list (start first) or None."""
+    from collections import deque
+    prev = {}
+    dq = deque()
+    for s in starts:
+        nxt = []
+        if start_edges in ("all", "normal"):
+            nxt += s.succs
+        if start_edges in ("all", "exc"):
+            nxt += s.exc_succs
+        for t in nxt:
+            if t not in prev and not avoid(t):
+                prev[t] = s
+                dq.append(t)
+    start_set = set(starts)
+    while dq:
+        n = dq.popleft()
+        if target(n):
+            path = [n]
+            while path[-1] in prev and path[-1] not in start_set:
+                path.append(prev[path[-1]])
+                if len(path) > len(cfg.nodes) + 2:
+                    break
+            return list(reversed(path))
+        for t in n.succs + (n.exc_succs if follow_exc(n) else []):
+            if t not in prev and not avoid(t):
+                prev[t] = n
+                dq.append(t)
+    return None
+
+
+# ---- statement-level inlining of same-class helpers + small dataflow helpers (appended for C14/C17) ----
+
+def clone_ast(node, src_mod=None):
+    """Structural copy of an AST without the _parent back-links (copy.deepcopy would drag the whole
+    module along).  Copied nodes remember the module they came from in `_src_mod`."""
+    if isinstance(node, ast.AST):
+        new = type(node)()
+        for f, v in ast.iter_fields(node):
+            setattr(new, f, clone_ast(v, src_mod))
+        for a in ("lineno", "col_offset", "end_lineno", "end_col_offset"):
+            if hasattr(node, a):
+                setattr(new, a, getattr(node, a))
+        sm = getattr(node, "_src_mod", None) or src_mod
+        if sm:
+            new._src_mod = sm
+        return new
+    if isinstance(node, list):
+        return [clone_ast(x, src_mod) for x in node]
+    return node
+
+
+def where_of(fi: FuncInfo, node) -> str:
+    """file:line of a node of an (inlined) function tree."""
+    return f"{getattr(node, '_src_mod', None) or fi.module.rel}:{getattr(node, 'lineno', 0)}"
+
+
+class _InlineSubst(ast.NodeTransformer):
+    def __init__(self, mapping, rename):
+        self.mapping, self.rename = mapping, rename
+
+    def visit_Name(self, n):
+        if n.id in self.mapping and isinstance(n.ctx, ast.Load):
+            return clone_ast(self.mapping[n.id])
+        if n.id in self.rename:
+            n.id = self.rename[n.id]
+        return n
+
+    def visit_arg(self, a):
+        if a.arg in self.rename:
+            a.arg = self.rename[a.arg]
+        return a
+
+    def visit_ExceptHandler(self, h):
+        if h.name in self.rename:
+            h.name = self.rename[h.name]
+        self.generic_visit(h)
+        return h
+
+
+def _simple_arg(e) -> bool:
+    if isinstance(e, (ast.Name, ast.Constant)):
+        return True
+    return isinstance(e, ast.Attribute) and _simple_arg(e.value)
+
+
+_INLINE_CACHE = {}
+
+
+def inline_self_calls(repo: Repo, fi: FuncInfo, depth=2, _stack=(), keep=frozenset()):
+    """Copy of fi.node in which statements `self.m(..)`, `x = self.m(..)`, `return self.m(..)` that call a
+    plain method of the same class hierarchy are replaced by the method's body (parameters substituted
+    or bound, helper locals renamed `__inlN_x`).  Only helpers without `return` (or with a single
+    trailing one) are inlined; anything else stays an opaque call.  The result has parents set, so
+    core.conditions/facts and cfg.CFG work on it; use where_of() for locations.
+    `keep`: method names that are never inlined (the primitives a rule wants to see as calls)."""
+    keep = frozenset(keep)
+    from ..core import set_parents
+    key = (id(repo), fi.full, depth, keep)
+    top = not _stack
+    if top and key in _INLINE_CACHE:
+        return _INLINE_CACHE[key]
+    fn = clone_ast(fi.node, fi.module.rel)
+    if fi.cls is not None and depth > 0 and fn.args.args:
+        selfname = fn.args.args[0].arg
+        counter = [0]
+
+        def helper_of(call):
+            f = call.func
+            if not (isinstance(f, ast.Attribute) and isinstance(f.value, ast.Name) and f.value.id == selfname):
+                return None
+            h = repo.lookup_method(fi.cls, f.attr)
+            if f.attr in keep or h is None or h == fi or h.full in _stack or h.node.decorator_list:
+                return None
+            return h
+
+        def try_inline(st):
+            val, ctxkind, target = None, None, None
+            if isinstance(st, ast.Expr):
+                val, ctxkind = st.value, "expr"
+            elif isinstance(st, ast.Assign) and len(st.targets) == 1 and isinstance(st.targets[0], ast.Name):
+                val, ctxkind, target = st.value, "assign", st.targets[0]
+            elif isinstance(st, ast.Return) and st.value is not None:
+                val, ctxkind = st.value, "return"
+            awaited = isinstance(val, ast.Await)
+            if awaited:
+                val = val.value
+            if not isinstance(val, ast.Call):
+                return None
+            h = helper_of(val)
+            if h is None or isinstance(h.node, ast.AsyncFunctionDef) != awaited:
+                return None
+            a = h.node.args
+            if a.vararg or a.kwarg or any(isinstance(x, ast.Starred) for x in val.args) \
+                    or any(k.arg is None for k in val.keywords):
+                return None
+            for x in walk(h.node, into_defs=True):
+                if isinstance(x, (ast.Global, ast.Nonlocal, ast.Import, ast.ImportFrom, ast.Yield, ast.YieldFrom)):
+                    return None
+            rets = [x for x in walk(h.node) if isinstance(x, ast.Return)]
+            if len(rets) > 1 or (rets and rets[0] is not h.node.body[-1]):
+                return None
+            hfn = inline_self_calls(repo, h, depth - 1, _stack + (fi.full,), keep)
+            body = list(hfn.body)
+            if body and isinstance(body[0], ast.Expr) and isinstance(body[0].value, ast.Constant) \
+                    and isinstance(body[0].value.value, str):
+                body = body[1:]
+            tail = None
+            if body and isinstance(body[-1], ast.Return):
+                tail = body[-1].value
+                body = body[:-1]
+            # parameters
+            params = [p.arg for p in (hfn.args.posonlyargs + hfn.args.args)][1:]
+            pos_defaults = dict(zip(reversed(params), reversed(hfn.args.defaults)))
+            kwonly = [p.arg for p in hfn.args.kwonlyargs]
+            kw_defaults = {p: d for p, d in zip(kwonly, hfn.args.kw_defaults) if d is not None}
+            if len(val.args) > len(params):
+                return None
+            bound = dict(zip(params, val.args))
+            for k in val.keywords:
+                if k.arg in bound or k.arg not in params + kwonly:
+                    return None
+                bound[k.arg] = k.value
+            for p in params + kwonly:
+                if p not in bound:
+                    d = pos_defaults.get(p, kw_defaults.get(p))
+                    if d is None:
+                        return None
+                    bound[p] = d
+            counter[0] += 1
+            pre = f"__inl{len(_stack)}_{counter[0]}_"
+            stored = set()
+            for b in body:
+                for x in ast.walk(b):
+                    if isinstance(x, ast.Name) and isinstance(x.ctx, (ast.Store, ast.Del)):
+                        stored.add(x.id)
+                    elif isinstance(x, ast.arg):
+                        stored.add(x.arg)
+                    elif isinstance(x, ast.ExceptHandler) and x.name:
+                        stored.add(x.name)
+            stored.discard(selfname)
+            mapping, rename, prologue = {}, {n: pre + n for n in stored}, []
+            for p, e in bound.items():
+                if _simple_arg(e) and p not in stored:
+                    mapping[p] = e
+                else:
+                    rename[p] = pre + p
+                    asg = ast.Assign(targets=[ast.Name(id=pre + p, ctx=ast.Store())], value=clone_ast(e))
+                    ast.copy_location(asg, st)
+                    prologue.append(asg)
+            sub = _InlineSubst(mapping, rename)
+            new_body = [sub.visit(b) for b in body]
+            tail_e = sub.visit(tail) if tail is not None else None
+            out = prologue + new_body
+            if ctxkind == "expr":
+                if tail_e is not None and any(isinstance(x, ast.Call) for x in ast.walk(tail_e)):
+                    out.append(ast.copy_location(ast.Expr(value=tail_e), st))
+            elif ctxkind == "assign":
+                out.append(ast.copy_location(ast.Assign(
+                    targets=[target], value=tail_e if tail_e is not None else ast.Constant(value=None)), st))
+            else:
+                out.append(ast.copy_location(ast.Return(value=tail_e), st))
+            if not out:
+                out = [ast.copy_location(ast.Pass(), st)]
+            for o in out:
+                if not getattr(o, "_src_mod", None):
+                    o._src_mod = getattr(st, "_src_mod", None)
+            return out
+
+        def expand(stmts):
+            out = []
+            for st in stmts:
+                rep = try_inline(st)
+                if rep is not None:
+                    out.extend(rep)
+                    continue
+                if not isinstance(st, FUNC_TYPES + (ast.ClassDef,)):
+                    for field in ("body", "orelse", "finalbody"):
+                        b = getattr(st, field, None)
+                        if isinstance(b, list) and b and isinstance(b[0], ast.stmt):
+                            setattr(st, field, expand(b))
+                    for h in getattr(st, "handlers", None) or []:
+                        h.body = expand(h.body)
+                out.append(st)
+            return out
+        fn.body = expand(fn.body)
+    if top:
+        ast.fix_missing_locations(fn)
+        set_parents(fn)
+        _INLINE_CACHE[key] = fn
+    return fn
+
+
+def single_def(fn_node, name: str):
+    """Value expression of the only binding of local `name` in the function when that binding is a plain
+    `name = expr`; None for parameters, loop/with/unpacking targets, or 0 / several bindings."""
+    a = fn_node.args
+    if name in [p.arg for p in a.posonlyargs + a.args + a.kwonlyargs] or \
+            (a.vararg and a.vararg.arg == name) or (a.kwarg and a.kwarg.arg == name):
+        return None
+    vals, other = [], 0
+    for s in stores(fn_node, into_defs=False):
+        if s.path != name or s.kind in ("mutcall", "setitem", "augsetitem", "delitem"):
+            continue   # mutations of the bound object do not rebind the name
+        if s.kind == "assign" and s.value is not None and isinstance(s.node, (ast.Assign, ast.AnnAssign)) \
+                and not isinstance(parent(s.target), (ast.Tuple, ast.List, ast.Starred)):
+            vals.append(s.value)
+        else:
+            other += 1
+    return vals[0] if len(vals) == 1 and not other else None
+
+
+def origin(fn_node, expr, depth=8):
+    """Follow local single-definition aliases: the expression a value was computed from."""
+    while depth > 0 and isinstance(expr, ast.Name):
+        d = single_def(fn_node, expr.id)
+        if d is None:
+            break
+        expr, depth = d, depth - 1
+    return expr
+
+
+def normal_path(cfg, starts, target: Callable, avoid: Callable = lambda n: False, include_start=False):
+    """Witness path along normal (non-exceptional) edges only, or None."""
+    if include_start:
+        for s in starts:
+            if not avoid(s) and target(s):
+                return [s]
+    return cfg_search(cfg, [s for s in starts if include_start is False or not avoid(s)], target, avoid,
+                      follow_exc=lambda n: False, start_edges="normal")
+
+
+def must_pass(cfg, pnodes, starts=None, include_start=False, targets=None):
+    """None when every normal path from starts (default: entry) to targets (default: function exit)
+    passes a node of `pnodes`; otherwise a witness path that avoids them."""
+    pset = set(pnodes)
+    tset = set(targets) if targets is not None else {cfg.exit}
+    return normal_path(cfg, starts if starts is not None else [cfg.entry], lambda n: n in tset,
+                       lambda n: n in pset, include_start=include_start)
+
+
+# ---- one-pass indexes (cached on the Repo object) for whole-tree ownership rules ----
+
+def call_index(repo: Repo):
+    """callee last component -> [(top-level FuncInfo, Call)] over the whole tree (same contents as
+    callers_of for every name, computed in one walk)."""
+    idx = getattr(repo, "_hsa_call_index", None)
+    if idx is None:
+        idx = {}
+        for f in repo.all_funcs:
+            if f.parent_fn is not None:
+                continue
+            for c in calls(f.node, into_defs=True):
+                a = call_attr(c)
+                if a is not None:
+                    idx.setdefault(a, []).append((f, c))
+        repo._hsa_call_index = idx
+    return idx
+
+
+def store_index(repo: Repo):
+    """last attribute of the stored-to path -> [(top-level FuncInfo, Store)] (paths with a receiver only)."""
+    idx = getattr(repo, "_hsa_store_index", None)
+    if idx is None:
+        idx = {}
+        for f in repo.all_funcs:
+            if f.parent_fn is not None:
+                continue
+            for st in stores(f.node, into_defs=True):
+                if "." in st.path:
+                    idx.setdefault(st.path.split(".")[-1].replace("[]", ""), []).append((f, st))
+        repo._hsa_store_index = idx
+    return idx
